@@ -17,12 +17,8 @@ def tptpI : ITerm → String
     (match op with | .add => "$sum" | .sub => "$difference" | .mul => "$product") ++
       "(" ++ tptpI l ++ ", " ++ tptpI r ++ ")"
 
-/-- `n.abs()` overflows (panics in the dev profile) for `isize::MIN`. -/
-def ITerm.tptpPanics : ITerm → Bool
-  | .num n => n = isizeMin
-  | .neg t => t.tptpPanics
-  | .bin _ l r => l.tptpPanics || r.tptpPanics
-  | _ => false
+/-- After the `fix:` (unsigned_abs) no numeral makes the printer panic. -/
+def ITerm.tptpPanics : ITerm → Bool := fun _ => false
 
 def tptpS : STerm → String
   | .sym s => s
